@@ -165,7 +165,7 @@ def build_validation_error(errors: Iterable[Error]) -> ValidationError:
             messages.append(error)
             continue
         path, msg = error
-        if not path:
+        if path is None or (isinstance(path, Collection) and not path):
             messages.append(msg)
         else:
             if isinstance(path, str) or not isinstance(path, Collection):
